@@ -319,3 +319,26 @@ def mem_family():
     k += 1
     out.append(_p(f"tm{k}_alloc_in_loop_if", sig, ["for r in seq(0, 2):"] + ind(["t2: f32[n]", "for i in seq(0, n):", "    t2[i] = src[i]", "if r < 1:"] + ind(other) + ["else:"] + ind(["for i in seq(0, n):", "    dst[i] = t2[i]"]))))
     return out
+
+
+# ---------------------------------------------------------------------------
+# C02 / C08: floor division on numerators that go negative (the backend must not emit C's truncating `/`)
+
+
+def idx_family():
+    out = []
+    k = 0
+    exprs = ["(i - 1) / 2 + 1", "(i - 3) / 4 + 1", "(1 - i) / 2 + 4", "(i - 5) / 4 + 2", "((i + 2) % 4 - 1) / 2 + 1", "(2 * i - 3) / 2 + 2",
+             "(i + j - 2) / 2 + 1", "(i - j) / 2 + 2", "(i - 1) / 2 + (j - 1) / 2 + 2", "(0 - i) / 2 + 4", "(i - 2) / 3 + 1", "(3 * i - 4) / 4 + 1"]
+    for e in exprs:
+        k += 1
+        if "j" in e:
+            body = ["for i in seq(0, 4):", "    for j in seq(0, 4):", f"        y[{e}] += x[i] + x[j]"]
+        else:
+            body = ["for i in seq(0, 8):", f"    y[{e}] += x[i]"]
+        out.append(_p(f"ti{k}", "x: f32[8], y: f32[16]", body))
+    # symbolic: k may be negative
+    for e in ["(k - 1) / 2 + 4", "(k + i - 3) / 2 + 4", "(2 * k + 1) / 4 + 4"]:
+        k += 1
+        out.append(_p(f"ti{k}", "k: index, x: f32[8], y: f32[16]", ["assert k >= -4 and k <= 4", "for i in seq(0, 4):", f"    y[{e}] += x[i]"]))
+    return out
